@@ -225,8 +225,8 @@ def bytesField : Cbor → Dec (Option Bytes)
 /-- a `Headers` member goes through `CoseMap.UnmarshalCBOR` on the raw item -/
 def hdrField (c : Cbor) : Dec Hdr :=
   match untag c with
-  | .simple 22 => .ok none
-  | .simple 23 => .ok none
+  | .simple 22 => .ok (some [])      -- null / undefined reach `CoseMap.UnmarshalCBOR`, which always makes a (possibly empty) map
+  | .simple 23 => .ok (some [])
   | .map kvs =>
     (match ofCborPairs kvs with
      | none => .unmodelled
